@@ -286,7 +286,10 @@ def complex_case(draw):
                 nwat=draw(st.integers(0, 3)), other=draw(st.booleans()), ff=draw(st.sampled_from(["AMBER", "PARSE", "CHARMM", "SWANSON"])),
                 lig_alt=draw(st.sampled_from(["none", "none", "some", "all"])),
                 copies=draw(st.sampled_from([1, 1, 2])),  # the same ligand bound twice (e.g. once per protomer)
-                serials=draw(st.sampled_from(["continue", "continue", "restart"])),  # ligand block pasted in: serials from 1 again
+                serials=draw(st.sampled_from(["continue", "continue", "restart"])),
+                # the ligand's residue name: a het code that a built-in force field also knows (CHARMM has ADP,
+                # ATP, NAD ...) must still get the MOL2-derived values on every atom
+                lig_resn=draw(st.sampled_from(["LIG", "LIG", "LIG", "DRG", "ADP", "ATP", "NAD"])),  # ligand block pasted in: serials from 1 again
                 tit=draw(st.sampled_from([None, None, 3.0, 7.0, 11.0])),  # titration route (hydrogens stripped and rebuilt)
                 lig_first=draw(st.booleans()), opts=draw(st.sampled_from([[], ["--noopt"], ["--nodebump"], ["--whitespace"]])))  # fmt: skip
 
@@ -301,6 +304,12 @@ def check_complex(case):
         names = (pool + [f"X{i}" for i in range(n)])[:n]
     else:
         names = molgen.default_names(m)
+    lig_resn = case.get("lig_resn", "LIG")
+    if lig_resn not in ("LIG", "DRG"):
+        # atom names of that het group as the CHARMM parameter file spells them (the first n of them)
+        dat = ffmodel.load_dat((topo.dat_dir() / "CHARMM.DAT").read_text(encoding="utf-8"))
+        pool = [a for a in dat.get(lig_resn, {}) if len(a) <= 4]
+        names = (pool + [f"X{i}" for i in range(n)])[:n]
     mol_text = molgen.to_mol2(m, names)
     try:
         ref = _read(mol_text)
@@ -314,7 +323,7 @@ def check_complex(case):
     lig_alt = case.get("lig_alt", "none")
     grouped = []
     for i in range(n):
-        rec = dict(name=names[i], resn="LIG", chain="L", seq=500, xyz=np.array(molgen.coords(i)) + shift,
+        rec = dict(name=names[i], resn=lig_resn, chain="L", seq=500, xyz=np.array(molgen.coords(i)) + shift,
                    rec="HETATM", group=("lig", i))  # fmt: skip
         if lig_alt == "all" or (lig_alt == "some" and i % 3 == 1):
             # alternate locations on ligand atoms: the first listed one counts, each atom is written once
@@ -357,7 +366,7 @@ def check_complex(case):
     collide = case["naming"] == "collide"
     res.nontrivial = collide or abs(sum(a["formal"] for a in m.atoms)) > 0
     res.label(f"ff={case['ff']}", f"naming={case['naming']}", f"waters={case['nwat']}", "other-het" if case["other"] else "no-other",
-              f"ligand-altloc={lig_alt}", f"copies={copies}", "titration" if case.get("tit") is not None else "no-titration")  # fmt: skip
+              f"ligand-altloc={lig_alt}", f"copies={copies}", f"ligand-resn={lig_resn}", "titration" if case.get("tit") is not None else "no-titration")  # fmt: skip
     if not r.ok:
         res.label("run-failed")
         res.nontrivial = False
@@ -370,7 +379,7 @@ def check_complex(case):
                 res.bad("C16:complex:fails-only-on-titration-route", f"complex runs without titration but fails with it: {r.exc_text[:120]}")
         return res
     lines = colfmt.read_pqr_text(r.pqr_text, "--whitespace" in case["opts"])
-    lig_lines = [ln for ln in lines if ln["resn"] == "LIG"]
+    lig_lines = [ln for ln in lines if ln["resn"] == lig_resn]
     seen = {}
     for ln in lig_lines:
         seen[ln["name"]] = seen.get(ln["name"], 0) + 1
@@ -401,7 +410,7 @@ def check_complex(case):
     # protein atoms keep the force field's values (state names via the model of the run)
     for residue in r.bio.residues:
         ffname = getattr(residue, "ffname", None)
-        if ffname is None or residue.name in ("LIG", "WAT", "HOH", "ZN9"):
+        if ffname is None or residue.name in ("LIG", "WAT", "HOH", "ZN9", lig_resn):
             continue
         tab = model.get(ffname, {})
         for a in residue.atoms:
